@@ -56,6 +56,7 @@ func tickOf(t time.Time) int {
 type recorder struct {
 	mu     sync.Mutex
 	b      *tv.Batch
+	hb     *tv.Batch // hook-level trace: the observable events plus the scheduler's log lines and decision points
 	n      int
 	closed bool // the run is over: late goroutines must not write into the next trace
 	runs   int  // "run" events so far
@@ -67,11 +68,28 @@ func (r *recorder) ev(name string, m tv.M) {
 	if r.closed {
 		return
 	}
+	if r.hb != nil {
+		cp := tv.M{}
+		for k, v := range m {
+			cp[k] = v
+		}
+		r.hb.Ev(name, cp)
+	}
 	r.b.Ev(name, m)
 	r.n++
 	if name == "run" {
 		r.runs++
 	}
+}
+
+// hook records an implementation-level event (hook-level trace only).
+func (r *recorder) hook(name string, m tv.M) {
+	r.mu.Lock()
+	defer r.mu.Unlock()
+	if r.closed || r.hb == nil {
+		return
+	}
+	r.hb.Ev(name, m)
 }
 
 func (r *recorder) nruns() int { r.mu.Lock(); defer r.mu.Unlock(); return r.runs }
@@ -157,6 +175,18 @@ func (h *hclock) woke() {
 	h.timers = h.timers[:0]
 }
 
+// live returns the deadline of the timer the scheduler currently holds, if any.
+func (h *hclock) live() (time.Time, bool) {
+	h.mu.Lock()
+	defer h.mu.Unlock()
+	for i := len(h.timers) - 1; i >= 0; i-- {
+		if t := h.timers[i]; !t.stopped && !t.consumed {
+			return t.target, true
+		}
+	}
+	return time.Time{}, false
+}
+
 // pending: some live timer's deadline has been reached and the scheduler has not picked it up.
 func (h *hclock) pending() bool {
 	h.mu.Lock()
@@ -206,6 +236,13 @@ func (l *hlogger) Info(msg string, kv ...interface{}) {
 		}
 	}
 	l.hook(fmt.Sprint("log:", msg, m))
+	if msg != "run" {
+		cp := tv.M{}
+		for k, v := range m {
+			cp[k] = v
+		}
+		l.rec.hook("log."+msg, cp)
+	}
 	if msg == "run" {
 		m["id"] = m["entry"]
 		delete(m, "entry")
@@ -229,11 +266,14 @@ type result struct {
 func isCronGate(p string) bool { return strings.HasPrefix(p, "cron.") }
 
 // runProgram executes one history under one seeded schedule.
-func runProgram(b *tv.Batch, prog program, seed int64) result {
+func runProgram(b, hb *tv.Batch, prog program, seed int64) result {
 	rng := rand.New(rand.NewSource(seed))
 	clk := &hclock{FakeClock: clocktesting.NewFakeClock(base)}
-	rec := &recorder{b: b}
+	rec := &recorder{b: b, hb: hb}
 	tr := b.Start(tv.M{"loc": prog.Loc, "prog": prog, "seed": seed})
+	if hb != nil {
+		hb.Start(tv.M{"loc": prog.Loc, "seed": seed})
+	}
 	ctl := sched.New("cron.*", "job.block")
 	var hmu sync.Mutex
 	var hookTrace []string
@@ -245,6 +285,16 @@ func runProgram(b *tv.Batch, prog program, seed int64) result {
 	}
 	ctl.OnEvent = func(point string, args []any) {
 		hook(point)
+		switch point {
+		case "cron.run.armed":
+			if t, ok := clk.live(); ok {
+				rec.hook(point, tv.M{"timer": true, "dl": tickOf(t)})
+			} else {
+				rec.hook(point, tv.M{"timer": false, "dl": 0})
+			}
+		default:
+			rec.hook(point, nil)
+		}
 		switch point {
 		case "cron.run.woke":
 			clk.woke()
@@ -325,7 +375,7 @@ func runProgram(b *tv.Batch, prog program, seed int64) result {
 				if s.P > 0 {
 					lph = int(floorMod(int64(s.Ph)+offTicks, int64(s.P))) // base is a multiple of 12 ticks
 				}
-				rec.ev("sched_call", tv.M{"id": id, "p": s.P, "ph": s.Ph, "real": s.Real})
+				rec.ev("sched_call", tv.M{"id": id, "p": s.P, "ph": s.Ph, "real": s.Real, "block": s.Block})
 				cur = ctl.Go("sched", func() {
 					var got cron.EntryID
 					if s.Real {
@@ -692,11 +742,12 @@ func TestCheck(t *testing.T) {
 	e.Set("mc_defect_rejected", def.Violation && def2.Violation)
 
 	b := &tv.Batch{}
+	hb := &tv.Batch{}
 	var results []result
 	var progs []program
 	inconcl := 0
 	run := func(p program, seed int64) {
-		r := runProgram(b, p, seed)
+		r := runProgram(b, hb, p, seed)
 		results = append(results, r)
 		progs = append(progs, p)
 		if r.err != nil {
@@ -722,7 +773,7 @@ func TestCheck(t *testing.T) {
 			run(p, rng.Int63())
 		}
 	}
-	nSeq, nRace, nPer := ev.Pick(60, 1000), ev.Pick(90, 1200), ev.Pick(2, 3)
+	nSeq, nRace, nPer := ev.Pick(50, 1000), ev.Pick(75, 1200), ev.Pick(2, 3)
 	for i := 0; i < nSeq; i++ {
 		run(genProgram(rng, "seq"), rng.Int63())
 	}
@@ -781,6 +832,27 @@ func TestCheck(t *testing.T) {
 		}
 		i := idx[r.Trace]
 		e.Violation(keyOf(r.Why, progs[i]), r.Why, tv.M{"program": progs[i], "schedule": results[i].schedule, "hook_trace": results[i].hook, "trace": jb.TraceStrings(r.Trace), "at": r.At})
+	}
+	// binding of the implementation-shaped model: hook-level traces must be behaviours of CronSched.tla (drift, not verdict)
+	jhb := &tv.Batch{}
+	for _, r := range results {
+		if r.err == nil {
+			jhb.AppendTrace(hb.Trace(r.trace))
+		}
+	}
+	if dump := os.Getenv("VERIF_C05_DUMP_HOOKTRACE"); dump != "" { // debugging aid: the hook-level batch as fed to TLC
+		_ = os.WriteFile(dump, jhb.Bytes(), 0o644)
+	}
+	hmissing, hres := tv.ValidateDoneChunked(tlc.Opts{Dir: "CronSched", Module: "TraceCronSchedImpl", Config: "TraceCronSchedImpl.cfg", Workers: 16, Timeout: ev.Pick(6*time.Minute, 40*time.Minute), HeapMB: 12000}, jhb)
+	fmt.Printf("TLC model-binding validation (hook-level traces vs CronSched.tla): ok=%v traces=%d not-explained=%d distinct=%d wall=%s %s\n", hres.OK, jhb.Len(), len(hmissing), hres.Distinct, hres.Wall.Round(time.Millisecond), hres.What)
+	e.Set("impl_traces_validated", int64(jhb.Len()))
+	e.Set("impl_drift_traces", int64(len(hmissing)))
+	e.Set("drift", len(hmissing) > 0 || !hres.OK)
+	if !hres.OK {
+		fmt.Printf("DRIFT property=C05 the model-binding validation did not run: %s %s\n", hres.What, hres.Tail(800))
+	}
+	if len(hmissing) > 0 {
+		fmt.Printf("DRIFT property=C05 %d hook-level traces are not behaviours of CronSched.tla (model and code diverge; not a violation by itself), first: %v\n", len(hmissing), jhb.TraceStrings(hmissing[0]))
 	}
 	selfTest(e)
 }
